@@ -525,8 +525,7 @@ pub async fn c19tls(line: &str, pki: &Pki) -> String {
                         let conn = Connection::new(host.clone(), Mem::new(a));
                         tls_client(be, conn, pki, payload.clone()).await
                     };
-                    let (r, ()) = tokio::join!(cli, srv);
-                    r
+                    drive(cli, srv).await
                 } else {
                     // full pipeline: Connector (pre-set address) then the TLS connector
                     let v6 = io_kind == "tcp6";
@@ -540,7 +539,10 @@ pub async fn c19tls(line: &str, pki: &Pki) -> String {
                     };
                     let cli = async {
                         let info = ConnectInfo::with_addr(host.clone(), addr);
-                        match Connector::default().service().call(info).await {
+                        // a resolver that fails at once: a pre-set address must never reach it (and a code change that
+                        // does reach it must not wait for real DNS)
+                        let resolver = Resolver::custom(ScriptedResolver { log: Rc::new(RefCell::new(Vec::new())), answer: Err(()) });
+                        match Connector::new(resolver).service().call(info).await {
                             Ok(conn) => {
                                 no_linger(conn.io_ref());
                                 tls_client(be, conn, pki, payload.clone()).await
@@ -548,8 +550,7 @@ pub async fn c19tls(line: &str, pki: &Pki) -> String {
                             Err(e) => format!("TCP {}", show_err(&e)),
                         }
                     };
-                    let (r, ()) = tokio::join!(cli, srv);
-                    r
+                    drive(cli, srv).await
                 }
             };
             match tokio::time::timeout(WATCHDOG, fut).await {
@@ -559,6 +560,18 @@ pub async fn c19tls(line: &str, pki: &Pki) -> String {
         })
         .await;
     format!("oracle{{{}}}|res={}", oracle, res)
+}
+
+/// run client and server concurrently until the CLIENT is done (a client that fails before it ever connects
+/// must not leave us waiting for the server's accept)
+async fn drive(cli: impl std::future::Future<Output = String>, srv: impl std::future::Future<Output = ()>) -> String {
+    tokio::pin!(cli);
+    tokio::pin!(srv);
+    tokio::select! {
+        biased;
+        r = &mut cli => r,
+        () = &mut srv => cli.await,
+    }
 }
 
 async fn tls_client<IO>(be: &str, conn: Connection<String, IO>, pki: &Pki, payload: Vec<u8>) -> String
